@@ -454,7 +454,7 @@ def main(argv):
                     if len(samples) >= 3:
                         break
     ev = dict(
-        property_id=pid, tier=tier, seed=seed, level="proof",
+        property_id=pid, tier=tier, seed=seed, level=cfg.get("level", "proof"),
         coverage=dict(
             obligations=obligations, discharged=discharged,
             checker_cmd=f"cd lean && lake build {' '.join(cfg['modules'])} && lake env lean <#print axioms of each obligation>"
@@ -465,9 +465,10 @@ def main(argv):
             obligations_list=[dict(theorem=t, axioms=ax) for t, ax in axioms.items()],
             leanchecker=(None if checker is None else dict(ok=checker[0], tail=checker[1])),
             evaluations=total_ops, distinct_nontrivial=len(distinct),
-            rule="each operation is executed on the real application (message server under branch/recover/commit) and replayed on "
+            rule=cfg.get("rule",
+                 "each operation is executed on the real application (message server under branch/recover/commit) and replayed on "
                  "the Lean model from the implementation's own pre-state; distinct = (model branch, accepted/rejected, magnitude "
-                 "class) triples observed; every one is non-trivial (an accepted state change or a rejection)",
+                 "class) triples observed; every one is non-trivial (an accepted state change or a rejection)"),
             traces_validated_against_impl=len(runs), model_impl_agreements=agree,
             model_impl_disagreements=total_ops - agree, accepted_ops=accepted,
             branch_histogram=dict(tags.most_common()), impl_outcome_histogram=dict(stats.most_common()),
@@ -476,6 +477,8 @@ def main(argv):
         assumptions=cfg.get("assumptions", ["SDK modules behave as modelled (validated on every operation of the run)"]),
         wall_s=round(time.time() - t0, 1), violations=n_viol,
     )
+    if cfg.get("evidence_notes"):
+        ev["notes"] = cfg["evidence_notes"]
     os.makedirs(os.path.join(VERIF, "evidence"), exist_ok=True)
     with open(os.path.join(VERIF, "evidence", f"{pid}.json"), "w") as f:
         json.dump(ev, f, indent=1)
